@@ -142,6 +142,9 @@ var recvFuncs = map[string]recvEffect{"sortabletask.WrapTask": {"GoMem.WrapTask"
 // methods of the receiver that consist of library constructor calls only
 var recvMethods = map[string]string{"InMemoryRepository.init": "GoMem.init"}
 
+// library functions that change their first argument in place
+var inplaceFuncs = map[string]string{"slices.SortStableFunc": "Go.slices_SortStableFunc"}
+
 var refStore = map[string]string{"InMemoryRepository": "GoMem.storeTask"}
 
 func (t *translator) trType(e ast.Expr) string {
@@ -677,6 +680,7 @@ type cont struct {
 	// what a fall-through at the end of the list means
 	kind string // "end" (function end), "loop" (continue with the next element), "fold" (yield the accumulator)
 	vars string // fold: the accumulator pattern
+	brk  bool   // fold: the body may `break` (the accumulator starts with the flag brk_)
 	rest []ast.Stmt
 	next *cont
 }
@@ -860,12 +864,20 @@ func (t *translator) trStmts(stmts []ast.Stmt, k *cont, d int) string {
 			if len(vars) == 0 {
 				t.fail(x, "range loop without any effect")
 			}
+			brk := hasBreak(x.Body)
+			if brk {
+				vars = append([]string{"brk_"}, vars...)
+			}
 			acc := vars[0]
 			if len(vars) > 1 {
 				acc = "(" + strings.Join(vars, ", ") + ")"
 			}
-			body := t.trStmts(x.Body.List, &cont{kind: "fold", vars: acc}, d+2)
+			body := t.trStmts(x.Body.List, &cont{kind: "fold", vars: acc, brk: brk}, d+3)
 			var b strings.Builder
+			if brk { // once the loop is left the remaining elements change nothing
+				b.WriteString(ind(d) + "let brk_ := false\n")
+				body = ind(d+2) + "if brk_ then\n" + ind(d+3) + acc + "\n" + ind(d+2) + "else\n" + body
+			}
 			b.WriteString(ind(d) + "let " + acc + " := Go.rangeFold " + t.trExpr(x.X) + " " + acc + " (fun " + acc + " " + leanIdent(v.Name) + " =>\n" + body + ")\n")
 			b.WriteString(t.trStmts(rest, k, d))
 			return b.String()
@@ -876,6 +888,23 @@ func (t *translator) trStmts(stmts []ast.Stmt, k *cont, d int) string {
 		b.WriteString(ind(d) + "| some r => r\n")
 		b.WriteString(ind(d) + "| none =>\n" + t.trStmts(rest, k, d+1))
 		return b.String()
+	case *ast.BranchStmt:
+		for c := k; c != nil; c = c.next {
+			if c.kind == "fold" {
+				switch x.Tok {
+				case token.CONTINUE:
+					return ind(d) + c.vars
+				case token.BREAK:
+					if c.brk {
+						return ind(d) + strings.Replace(c.vars, "(brk_,", "(true,", 1)
+					}
+				}
+			}
+			if c.kind == "loop" {
+				break
+			}
+		}
+		t.fail(x, "unsupported branch statement %s", x.Tok)
 	case *ast.ForStmt:
 		// for pair := recv.f.Oldest(); pair != nil; pair = pair.Next() { … }  ≡  range over the pairs, oldest first
 		if as, ok := x.Init.(*ast.AssignStmt); ok && len(as.Lhs) == 1 && len(as.Rhs) == 1 && x.Post != nil {
@@ -1202,6 +1231,9 @@ func (t *translator) trSimple(s ast.Stmt, d int) string {
 			}
 		}
 		return b.String()
+	case *ast.IncDecStmt:
+		root, r := t.lhsUpdate(x.X, "("+t.trExpr(x.X)+map[token.Token]string{token.INC: " + 1)", token.DEC: " - 1)"}[x.Tok])
+		return ind(d) + "let " + root + " := " + r + "\n"
 	case *ast.DeclStmt:
 		gd := x.Decl.(*ast.GenDecl)
 		var b strings.Builder
@@ -1221,6 +1253,14 @@ func (t *translator) trSimple(s ast.Stmt, d int) string {
 		}
 		return b.String()
 	case *ast.ExprStmt:
+		if c, ok := x.X.(*ast.CallExpr); ok {
+			if sel, ok := c.Fun.(*ast.SelectorExpr); ok {
+				if lean, ok := inplaceFuncs[exprString(sel)]; ok && len(c.Args) >= 1 {
+					root, upd := t.lhsUpdate(c.Args[0], "("+lean+t.trArgs(c.Args)+")")
+					return ind(d) + "let " + root + " := " + upd + "\n"
+				}
+			}
+		}
 		if rc, key, ok := t.recvFieldKey(x.X); ok && recvEffects[key].kind == "state" {
 			r := leanIdent(t.recv)
 			return ind(d) + "let " + r + " := (" + recvEffects[key].lean + " " + r + t.trArgs(rc.Args) + ")\n"
@@ -1397,6 +1437,22 @@ func (t *translator) callsMutating(body *ast.BlockStmt, recv, rt string) bool {
 	return found
 }
 
+func hasBreak(body *ast.BlockStmt) bool {
+	found := false
+	ast.Inspect(body, func(n ast.Node) bool {
+		switch x := n.(type) {
+		case *ast.BranchStmt:
+			if x.Tok == token.BREAK {
+				found = true
+			}
+		case *ast.FuncLit, *ast.RangeStmt, *ast.ForStmt, *ast.SwitchStmt, *ast.SelectStmt:
+			return false
+		}
+		return true
+	})
+	return found
+}
+
 func hasReturn(body *ast.BlockStmt) bool {
 	found := false
 	ast.Inspect(body, func(n ast.Node) bool {
@@ -1427,6 +1483,12 @@ func (t *translator) foldVars(body *ast.BlockStmt) []string {
 	}
 	declared := map[string]bool{}
 	ast.Inspect(body, func(n ast.Node) bool {
+		if inc, ok := n.(*ast.IncDecStmt); ok {
+			if id := rootIdent(inc.X); id != "" && !declared[id] && t.locals[id] && id != t.recv {
+				add(id)
+			}
+			return true
+		}
 		as, ok := n.(*ast.AssignStmt)
 		if !ok {
 			return true
@@ -1715,6 +1777,7 @@ func init() {
 			it(f, "func", "InMemoryRepository.AddTask", "InMemoryRepository.GetById", "InMemoryRepository.UpdateById",
 				"InMemoryRepository.Cancel", "InMemoryRepository.MarkAsDispatched", "InMemoryRepository.MarkAsDone",
 				"InMemoryRepository.GetNext"),
+			it(f, "func", "InMemoryRepository.Find"),
 			it("repository/inmemory/io.go", "type", "KeyValue"),
 			it("repository/inmemory/io.go", "func", "InMemoryRepository.Save", "InMemoryRepository.Load"),
 		),
